@@ -113,6 +113,8 @@ def _ieval(n, env, fn=None, depth=0):
         if r is None:
             return type_range(n)
         return _clamp(r, n)
+    if k == "InitListExpr" and len(n.children) == 1:
+        return _clamp(ieval(n.children[0], env, fn, depth + 1), n)
     if k == "ConditionalOperator":
         a = ieval(n.children[1], env, fn, depth + 1)
         b = ieval(n.children[2], env, fn, depth + 1)
@@ -235,3 +237,63 @@ def check_shifts(ctx, rule, fn, domains, instance_prefix=None, only=None):
                      canon(s.children[1]), cnt, {k: str(v) for k, v in domains.items()}, width), fn)
         out.append((s, cnt, ok))
     return out
+
+
+def raw_sum(n, env, fn=None):
+    """Interval of an unsigned `a + b` BEFORE it is reduced modulo 2^width."""
+    a = ieval(n.children[0], env, fn)
+    b = ieval(n.children[1], env, fn)
+    return Iv(a.lo + b.lo, a.hi + b.hi)
+
+
+def check_no_wrap_adds(ctx, rule, fn, domains, label=None, touching=None, signed=False):
+    """Every unsigned addition in fn whose value depends on the given parameters stays below 2^width for all parameter
+    values in `domains` (decl id -> Iv) that pass the branch facts dominating the addition."""
+    from . import rules_atomic as RA
+    env0 = dict(domains)
+    inits = RA.local_inits(fn)
+    lz = {}
+    for did, init in inits.items():
+        if did in env0 or RA._reassigned(fn, did):
+            continue
+        if init.get("bits") or init.strip().get("bits"):
+            lz[did] = init
+    env0["__inits__"] = lz
+    pk = param_keyof(fn)
+
+    def keyof(n):
+        k = pk(n)
+        if k is not None:
+            return k
+        n = n.strip()
+        if n.kind == "DeclRefExpr" and n.d["d"] in lz:
+            return n.d["d"]
+        return None
+    dep = set(domains)
+    grew = True
+    while grew:
+        grew = False
+        for did, init in lz.items():
+            if did not in dep and any(x.kind == "DeclRefExpr" and x.d.get("d") in dep for x in init.walk()):
+                dep.add(did)
+                grew = True
+    adds = [n for n in fn.events() if n.kind == "BinaryOperator" and n.op == "+" and (n.get("sgn") is False or signed) and n.get("bits")
+            and any(x.kind == "DeclRefExpr" and x.d.get("d") in dep for x in n.walk())]
+    adds.sort(key=lambda n: n.loc)
+    res = []
+    for i, a in enumerate(adds):
+        env = dict(env0)
+        for cond, truth in flow.facts_at(fn, a.id):
+            env = refine_env(env, cond, truth, keyof)
+        r = raw_sum(a, env, fn)
+        top = (1 << a.get("bits")) - 1
+        if a.get("sgn"):
+            top = (1 << (a.get("bits") - 1)) - 1
+        ok = r.hi <= top
+        ctx.inst(rule, "%s: sum #%d" % (label or fn.uq, i + 1), ok, a.loc,
+                 "%s ranges up to %s; %s" % (canon(a)[:70], ("2^%d%+d" % (a.get("bits") - (1 if a.get("sgn") else 0), r.hi - (top + 1))) if r.hi > top - 10 ** 6 else r.hi,
+                                              ("overflows the signed type (undefined behaviour)" if a.get("sgn") else
+                                               "wraps around for large arguments (the result is a small size the policy never sees the real request for)")
+                                              if not ok else "cannot wrap"), fn)
+        res.append((a, ok, ieval(a, env, fn)))
+    return res
